@@ -267,8 +267,10 @@ class ResourcePeriodicallyUnavailable(ResourceConstraint):
                         )
                     ]
 
-                    if self.start > 0:
-                        conds.append(end_task_i <= self.start)
+                    # a busy interval that ends before the constraint starts is not concerned
+                    # (with start=0: an interval left before time 0 because its worker is
+                    # not selected or its task is not scheduled)
+                    conds.append(end_task_i <= self.start)
                     if self.end is not None:
                         conds.append(start_task_i >= self.end)
 
@@ -536,8 +538,7 @@ class ResourcePeriodicallyInterrupted(ResourceConstraint):
                 # a task that lies outside the active range [start, end) is not concerned
                 core = z3.And(*task_conds)
                 mask = [core]
-                if self.start > 0:
-                    mask.append(end_task_i <= self.start)
+                mask.append(end_task_i <= self.start)
                 if self.end is not None:
                     mask.append(start_task_i >= self.end)
                 if len(mask) > 1:
